@@ -157,4 +157,18 @@ def run (c : Cfg) : St → List Op → St
   | s, [] => s
   | s, o :: os => run c (step c s o) os
 
+/-! ### the h2c opening, and what h2 lets the server send once `close_connection()` was called -/
+
+/-- the connection after `initiate(headers, settings)` has served the HTTP/1.1 request of an `Upgrade: h2c` connection
+    on stream 1: h2 opened stream 1 (`initiate_upgrade_connection`), `_create_stream` counted it; the request maximum is
+    compared at that point iff `Limits.h2InitiateCompares` (extracted from `H2Protocol.initiate`) -/
+def afterUpgrade (c : Cfg) : St :=
+  let s1 : St := { lib := { opened := [1], highest := 1 }, kar := Limits.h2CounterInit + Limits.h2IncrCreateStream, served := [1] }
+  if Limits.h2InitiateCompares && Guards.h2KeepAliveCmp.eval s1.kar c.keepAliveMax then closeConnection s1 else s1
+
+/-- can the response of stream `sid` still be handed to the client?  `stream_send(Response)` calls h2's `send_headers`,
+    which raises `ProtocolError` once the connection state machine is CLOSED (`close_connection()` puts it there at
+    once, *assumed* of h2, sampled); `stream_send` swallows that error, the application is not told -/
+def responseDeliverable (s : St) (sid : Nat) : Bool := s.served.contains sid && !s.lib.closed
+
 end HC.Proto.H2Lim
